@@ -181,6 +181,30 @@ func runResizeCase(c *core.Case) *core.Result {
 		res.Add("shrink_extent_checks", 1)
 	}
 
+	// second resize (half of the cases): e.g. shrink below the extent, then grow
+	// (with prealloc) to a limit that is still below the extent
+	if r.Chance(1, 2) {
+		rs2 := resizeSpec{OldPages: rs.NewPages, NewPages: sizes[r.Intn(len(sizes))], Prealloc: r.Chance(1, 2)}
+		for rs2.NewPages == rs2.OldPages {
+			rs2.NewPages = sizes[r.Intn(len(sizes))]
+		}
+		if rs2.NewPages > 0 && r.Chance(1, 3) {
+			rs2.NewOdd = 1 + r.Intn(int(cfg.PageSize)-1)
+		}
+		if !w.reopenResized(rs2) { // Open checks lock idle and contents == model
+			return finish()
+		}
+		if !w.Begin(txfile.TxOptions{}) || !w.End(OClose) {
+			return finish()
+		}
+		p.Txs = 2 + r.Intn(6)
+		if !w.Run(GenProgram(r, p)) {
+			return finish()
+		}
+		rs = rs2
+		res.Add("second_resizes", 1)
+	}
+
 	// a later plain open (no size given) reports the new limit
 	w.OpenOpts = func(o *txfile.Options) { o.MaxSize, o.Prealloc = 0, false }
 	ok := w.Reopen()
